@@ -25,15 +25,36 @@ def main():
         print(json.dumps(out, indent=1))
         return 0 if out['ok'] else 1
     chk.verify_parallel(build, [(U.NAME, None)], timeout_s=40, procs=1)
+    # implementation == specification fold on every list of <= 2 (thorough:
+    # 3) lines with symbolic contents
+    from props import dom_common
+    from contracts import dom_scenarios as DS
+    dom_common.run_scenarios(chk, DS.c14_scenarios(chk.tier))
     chk.trusted += [
+        'EQUIVALENCE LAYER: the real function and an independent '
+        'specification (a fold over line classes written in the scenario '
+        'driver, contracts/dom_scenarios.py HUNK_SPEC) are executed '
+        'symbolically on the same list of n <= %d lines whose CONTENTS are '
+        'symbolic; verdict, error line, processed-line count, totals, hunk '
+        'count and the ten geometry fields of every hunk must agree on '
+        'every path.  Unbounded in the contents, bounded in the number of '
+        'lines; the input space is partitioned by the first bytes of the '
+        'lines (exhaustive) to run in parallel' % (
+            2 if chk.tier == 'quick' else 3),
+        'the specification shares the header pattern with the '
+        'implementation (header grammar is not re-specified) and, like the '
+        'implementation, treats a marker line after a completed hunk as a '
+        'non-hunk line (the known finding is a property-level judgement, '
+        'kept in the bounded layer)',
         'A-re: the hunk-header pattern translated from the real source; '
         'groups by existential decomposition',
         'A-int: int() of an ASCII digit string; lines are assumed no '
         'longer than 4300 bytes (CPython refuses longer digit strings with '
         'ValueError) - stated precondition',
         'precondition: lines is a list of bytes',
-        'the per-hunk GEOMETRY (first/last changed line, context, counts per '
-        'hunk) is NOT under contract - bounded layer only']
+        'the per-hunk GEOMETRY is under the loop contract only as far as '
+        'counters go; beyond the list lengths of the equivalence layer it '
+        'is covered by the bounded layer']
     # known finding: a marker right after the line that completes a hunk
     kn = native('C14', {'op': 'replay', 'witness': {
         'lines': [l.hex() for l in KNOWN_MARKER], 'ignore': False}})
